@@ -130,6 +130,12 @@ def handle (op : String) (a : Json) : Option R :=
       if data.length ≠ prodL sh then throw "BadArg:shape"
       let cutoff ← ratOf (← a.getObjVal? "cutoff")
       pure (jRats (centerOfMass ⟨sh, (data.map (fun (z : Int) => (z : Rat))).toArray⟩ cutoff))
+  | "c06.clean" => some do
+      -- tail of Density.rigid_transform on the flattened output (`old` = the absolute threshold before the repair)
+      let eps ← ratOf (← a.getObjVal? "eps")
+      let data ← getRatList a "data"
+      let old := (getBool a "old").toOption.getD false
+      pure (jRats (if old then cleanNoiseAbs eps data else cleanNoise eps data))
   | "c06.defaults" => some do
       pure (Json.mkObj [("geometric", Json.mkObj (defaultGeometric.map (fun (k, v) => (k, jBool v)))),
                         ("order", Json.mkObj (defaultOrder.map (fun (k, v) => (k, jNat v))))])
